@@ -62,6 +62,9 @@ type geom struct {
 	fixedVal []bool
 	// fixedKind[i] names the pattern fixedIdx[i] belongs to (error texts).
 	fixedKind []uint8
+	// nCore is the number of leading fixed entries that lie inside the core
+	// (bull's eye, orientation marks, reference modules of the mode ring).
+	nCore int
 }
 
 const (
@@ -183,6 +186,8 @@ func buildGeom(compact bool, layers int) *geom {
 	for i := n - 1; i >= 0; i-- { // left, bottom to top
 		gm.mode = append(gm.mode, claim(c-s, c+offs[i]))
 	}
+
+	gm.nCore = len(gm.fixedIdx)
 
 	// --- reference grid (full-range only), outside the core.
 	if !compact {
